@@ -146,8 +146,10 @@ def direct(seed, tier, model, stats):
         if r.random() < 0.4:
             fr = np.abs(np.fft.fftfreq(N, 1 / SR))
             fr = np.unique(np.concatenate((fr, [SR / 2])))          # on the fft grid
-        else:
+        elif r.random() < 0.6:
             fr = np.linspace(0, SR * r.uniform(0.5, 0.8), K)           # off the grid
+        else:
+            fr = np.linspace(SR * r.uniform(0.02, 0.2), SR * r.uniform(0.5, 0.8), K)     # not starting at 0 Hz: held constant below
         amp = np.array([r.uniform(0.3, 3) for _ in range(len(fr))])
         x = np.array([r.uniform(-1, 1) for _ in range(N)])
         tested["custom"] += 1
